@@ -406,7 +406,7 @@ async def execute_read_reqs(
                 break
             read_pipeline = read_pipelines[i]
             if (
-                len(io_tasks) == 0
+                len(io_tasks) + len(consuming_tasks) == 0
                 or read_pipeline.consuming_cost_bytes < memory_budget_bytes
             ):
                 memory_budget_bytes -= read_pipeline.consuming_cost_bytes
